@@ -31,6 +31,13 @@ rejected with resource-exhausted — also when it is the first message of a stre
 def holdsSharp (limit size : Nat) (ok exhausted : Bool) (want got echo : Nat) : Bool :=
   if accepts limit size then ok && got == want && echo == size else exhausted && !ok
 
+/-- The two sentences of the property tied together.  A server process was configured with the
+receive limit `cfg`; a request whose directive has the offset `d` was accepted by the loader and
+has `sz` bytes.  "Padded to server receive limit + d" then means: the request is beyond the
+limit the server enforces exactly when `d > 0` (so `d = 0` is the largest request that passes
+and `d = 1` the smallest that does not — the limit is sharp w.r.t. the padding). -/
+def holdsConfigured (cfg sz : Nat) (d : Int) : Bool := accepts cfg sz == decide (d ≤ 0)
+
 /-- The property on one request message of a suite that was ACCEPTED (loaded without error),
 whatever the suite's attributes are: a message with a directive `off` has exactly
 `limit + off` bytes and nothing but its padding changed; a message without one is what the
